@@ -72,6 +72,10 @@ Mutations(doc) ==
   \cup { Mut([doc EXCEPT ![i].fields[1].args = Append(@, ArgD("must", NonNull(I)))], "interface_extra_required_arg") : i \in {i \in Kind(doc, "OBJECT") : doc[i].ifaces # <<>>} }
   \cup { Mut([doc EXCEPT ![i].fields[1].args[1].type = I], "interface_arg_type") : i \in {i \in Kind(doc, "OBJECT") : doc[i].ifaces # <<>> /\ doc[i].fields[1].args # <<>>} }
   \cup { Mut([doc EXCEPT ![i].ifaces = Append(@, doc[CHOOSE k \in DOMAIN doc : doc[k].kind = "ENUM"].name)], "implements_non_interface") : i \in Kind(doc, "OBJECT") }
+  \* the argument of an implementing field has the type the interface gives it - the non-null wrapper included, at any level
+  \cup { Mut(doc \o << InterfaceD("NN", <<FieldD("f", I, <<ArgD("a", ts[1])>>)>>), ObjectD("ImplNN", <<"NN">>, <<FieldD("f", I, <<ArgD("a", ts[2])>>)>>) >>,
+              "interface_arg_nullability") :
+           ts \in { <<NonNull(I), I>>, <<I, NonNull(I)>>, <<NonNull(ListOf(NonNull(I))), ListOf(NonNull(I))>>, <<ListOf(NonNull(I)), ListOf(I)>> } }
   \* ---- unions, emptiness
   \cup { Mut([doc EXCEPT ![i].members = Append(@, n)], "union_member_not_object") :
            i \in Kind(doc, "UNION"), n \in {doc[k].name : k \in {k \in DOMAIN doc : doc[k].kind \in {"ENUM", "INTERFACE", "INPUT_OBJECT", "SCALAR"}}} \cup {"Int"} }
